@@ -310,12 +310,28 @@ def _conv_index(idx):
         if all(isinstance(norm(x), int) for x in arr.reshape(-1)):
             return np.array([int(norm(x)) for x in arr.reshape(-1)], dtype=int).reshape(arr.shape)
         raise Undecided("symbolic index array")
-    if isinstance(idx, bool):
-        return idx
+    if isinstance(idx, (bool, np.bool_)):
+        return bool(idx)
     return _toint(idx)
 
 
+def _resolve_masks(it, idx):
+    """boolean masks with symbolic truth values are decided entry by entry (one path per outcome)"""
+    if isinstance(idx, tuple):
+        return tuple(_resolve_masks(it, i) for i in idx)
+    if isinstance(idx, (np.ndarray, list)):
+        arr = as_array(idx)
+        flat = [norm(x) for x in arr.reshape(-1)]
+        if flat and all(isinstance(x, bool) or is_bool_sym(x) or isinstance(x, (BooleanTrue, BooleanFalse)) for x in flat) and any(is_sym(x) for x in flat):
+            out = np.array([bool(it.truth(x)) for x in flat], dtype=bool).reshape(arr.shape)
+            return out
+    if is_sym(idx) and is_bool_sym(idx):
+        return bool(it.truth(idx))
+    return idx
+
+
 def getitem(it, v, idx):
+    idx = _resolve_masks(it, idx)
     if isinstance(v, SymObj):
         return it.call_method(v, "__getitem__", [idx], {})
     if isinstance(v, dict):
@@ -348,6 +364,7 @@ def getitem(it, v, idx):
 
 
 def setitem(it, v, idx, val):
+    idx = _resolve_masks(it, idx)
     if isinstance(v, SymObj):
         return it.call_method(v, "__setitem__", [idx, val], {})
     if isinstance(v, dict):
